@@ -48,6 +48,11 @@ def run(ctx):
     from . import c12
     for sc_ in ctx.prog.subclasses('StreamInterface'):
         c12.r121_private_generator(ctx, sc_)
+    # a value a distribution buffers between draws (the second gaussian of a pair) is dropped whenever a stream is assigned, also the same
+    # stream again after re-seeding: otherwise a replication starts with a number left over from the one before (shared rule with C14)
+    from . import c14
+    ctx.uses('distributions')
+    c14.r143(ctx, c14.concrete_dists(ctx.prog))
     c08.r82(ctx)
     r73_ids_ordinal(ctx)
     # ids must also increase strictly in creation order for the whole process (shared rule with C01): a counter that can be
